@@ -329,6 +329,7 @@ def generate(repo):
     w('/-  GENERATED by harness/translate.py (harness/wrappers.py) from the working tree of the repository — do not edit.')
     w('    One entry per method of `class AnsiStr` and `class AnsiString`, translated from the AST. -/')
     w('import AnsiModel.Wrap')
+    w('import AnsiModel.Setting')
     w('')
     w('namespace Gen')
     w('open Wrap')
@@ -372,6 +373,24 @@ def generate(repo):
                                                   '0 = goes on, 1 = has returned, 2 = has raised' % py))
         else:
             w('def %s : Int := 0\n' % ln)
+    import pylist
+    point_fns = {f.name: f for f in class_methods(tree, '_AnsiSettingPoint')}
+    LISTFNS = [
+        (fns, '_find_setting_reference', 'findSettingReference', [('find', 'Setting'), ('in_list', 'List Setting')], 'Int'),
+        (fns, '_same_setting_references', 'sameSettingReferences', [('list1', 'List Setting'), ('list2', 'List Setting')], 'Bool'),
+        (fns, '_find_settings_references', 'findSettingsReferences', [('find_list', 'List Setting'), ('in_list', 'List Setting')], 'List (Nat × Nat)'),
+        (fns, 'is_formatting_valid', 'isFormattingValid', [('fmts', 'Fmts')], 'Bool'),
+        (fns, 'is_formatting_parsable', 'isFormattingParsable', [('fmts', 'Fmts')], 'Bool'),
+        (point_fns, '__bool__', 'pointBool', [('p', 'Point')], 'Bool'),
+    ]
+    for table, py, ln, params, ret in LISTFNS:
+        if py in table:
+            w(pylist.translate(table[py], ln, params, ret, '`%s` translated by loop idiom (harness/pylist.py); `is` is identity (`.id`)' % py))
+        else:
+            w('def %sOk : Bool := false\n' % ln)
+    ftree = ast.parse(open(os.path.join(repo, 'src', 'ansi_string', 'ansi_format.py')).read())
+    cfn = {f.name: f for f in class_methods(ftree, '_AnsiControlFn')}
+    w(pyint.translate_rgb(cfn['rgb']) if 'rgb' in cfn else 'def rgbChannelsOk : Bool := false\n')
     w('end Gen')
     return '\n'.join(L) + '\n'
 
